@@ -16,6 +16,9 @@ import EaselModel.Weights.AdvLemmas
 import EaselModel.Weights.TreeLemmas
 import EaselModel.Weights.DistanceLemmas
 import EaselModel.Weights.EngineLemmas
+import EaselModel.Weights.PrefLemmas
+import EaselModel.Weights.ConsLemmas
+import EaselModel.Weights.SampleLemmas
 /-! # C16 — sequence weights, identity filtering and clustering follow their definitions
 
   Theorems about the `ℚ` instance of the executable model `EaselModel.Weights` (the `Float` instance of the same
@@ -793,5 +796,164 @@ theorem avgSubsetConnectivity_is (f : Row → Row → ℚ) (rows : List Row) (V 
 
 example : avgConnectivity (pid (α := ℚ) Mode.text) [[65, 67], [65, 71], [84, 71]] 5 (1/4) [] = (1/3, 2/3) ∧
     avgSubsetConnectivity (pid (α := ℚ) Mode.text) [[65, 67], [65, 71], [84, 71]] [2, 0] 5 0 [] = (0, 0) := by decide +kernel
+
+/-! ## `esl_quicksort` sorts; the three preference rules of `esl_msaweight_IDFilter_adv`; consensus-column selection -/
+
+/-- `esl_quicksort` SORTS (not only permutes): for every comparison function that is reflexive, total and transitive on
+    0..n−1, `sorted_at[x]` never compares after `sorted_at[y]` for x < y. (The median-of-three no-op, the Hoare loop and the
+    recursion order are those of the C code; the model's fuel provably never runs out.) -/
+theorem quicksort_sorts (cmp : Nat → Nat → Int) (n : Nat) (hc : CmpOK cmp (· < n)) (x y : Nat) (hxy : x < y) (hy : y < n) :
+    cmp ((quicksort cmp n).getD x 0) ((quicksort cmp n).getD y 0) ≤ 0 := quicksort_sorted hc x y hxy hy
+
+/-- `sort_doubles_decreasing` on any weight vector is such a comparison, so the weights along `sorted_at[]` never increase -/
+theorem quicksort_decreasing_weights (w : List ℚ) :
+    CmpOK (cmpDecreasing w) (· < w.length) ∧
+    ∀ x y, x < y → y < w.length →
+      w.getD ((quicksort (cmpDecreasing w) w.length).getD y 0) 0 ≤ w.getD ((quicksort (cmpDecreasing w) w.length).getD x 0) 0 :=
+  ⟨cmpDecreasing_ok w, fun x y hxy hy => quicksort_decreasing w x y hxy hy⟩
+
+example : quicksort (cmpDecreasing ([3, 1, 4, 1, 5, 9, 2, 6] : List ℚ)) 8 = [5, 7, 4, 2, 0, 6, 3, 1] := by decide +kernel
+
+/-- every preference rule: a dropped row reaches the threshold with a DIFFERENT kept row that the rule prefers at least as
+    much (`sortwgt[k] ≥ sortwgt[r]`) -/
+theorem idFilterAdv_keeps_preferred (abc : Abc) (cfg : WCfg) (deal : Nat → Nat → List Nat) (pref : FilterPref) (maxid : ℚ)
+    (rf : Option Row) (rows : List Row) (r : Nat) (hr : r < rows.length)
+    (h : r ∉ idFilterAdv abc cfg deal pref maxid rf rows) :
+    ∃ k ∈ idFilterAdv abc cfg deal pref maxid rf rows, k ≠ r ∧ k < rows.length ∧
+      (sortwgtOf (α := ℚ) abc cfg deal rf rows pref).getD r 0 ≤ (sortwgtOf (α := ℚ) abc cfg deal rf rows pref).getD k 0 ∧
+      maxid ≤ pid (α := ℚ) (Mode.digital abc) (rows.getD r []) (rows.getD k []) :=
+  idFilterDigital_keeps_preferred abc maxid _ rows (sortwgtOf_length abc cfg deal rf rows pref) r hr h
+
+/-- eslMSAWEIGHT_FILT_CONSCOVER: the surviving representative spans at least as many consensus columns as the dropped row -/
+theorem idFilterAdv_conscover (abc : Abc) (cfg : WCfg) (deal : Nat → Nat → List Nat) (maxid : ℚ) (rf : Option Row)
+    (rows : List Row) (r : Nat) (hr : r < rows.length) (h : r ∉ idFilterAdv abc cfg deal .conscover maxid rf rows) :
+    ∃ k ∈ idFilterAdv abc cfg deal .conscover maxid rf rows, k ≠ r ∧
+      conscover abc (filterConsensusAdv abc cfg deal rf rows) (rows.getD r []) ≤
+        conscover abc (filterConsensusAdv abc cfg deal rf rows) (rows.getD k []) ∧
+      maxid ≤ pid (α := ℚ) (Mode.digital abc) (rows.getD r []) (rows.getD k []) := by
+  obtain ⟨k, hk, hne, hklt, hw, hl⟩ := idFilterAdv_keeps_preferred abc cfg deal .conscover maxid rf rows r hr h
+  rw [(sortwgtOf_getD abc cfg deal rf rows r hr).1, (sortwgtOf_getD abc cfg deal rf rows k hklt).1] at hw
+  exact ⟨k, hk, hne, by exact_mod_cast hw, hl⟩
+
+/-- eslMSAWEIGHT_FILT_RANDOM: the surviving representative drew at least as large a random number -/
+theorem idFilterAdv_random (abc : Abc) (cfg : WCfg) (deal : Nat → Nat → List Nat) (nums : List Nat) (maxid : ℚ)
+    (rf : Option Row) (rows : List Row) (r : Nat) (hr : r < rows.length)
+    (h : r ∉ idFilterAdv abc cfg deal (.random nums) maxid rf rows) :
+    ∃ k ∈ idFilterAdv abc cfg deal (.random nums) maxid rf rows, k ≠ r ∧ nums.getD r 0 ≤ nums.getD k 0 ∧
+      maxid ≤ pid (α := ℚ) (Mode.digital abc) (rows.getD r []) (rows.getD k []) := by
+  obtain ⟨k, hk, hne, hklt, hw, hl⟩ := idFilterAdv_keeps_preferred abc cfg deal (.random nums) maxid rf rows r hr h
+  rw [(sortwgtOf_getD abc cfg deal rf rows r hr).2.1 nums, (sortwgtOf_getD abc cfg deal rf rows k hklt).2.1 nums] at hw
+  refine ⟨k, hk, hne, ?_, hl⟩
+  have h2 : ((nums.getD r 0 : Nat) : ℚ) ≤ ((nums.getD k 0 : Nat) : ℚ) := by
+    have hpos : (0 : ℚ) < 9007199254740992 := by norm_num
+    exact (div_le_div_iff_of_pos_right hpos).mp hw
+  exact_mod_cast h2
+
+/-- eslMSAWEIGHT_FILT_ORIGORDER: the sort leaves the rows in their original order, so the digital filter IS the text-mode
+    rule "keep the earlier row, drop the later": a dropped row reaches the threshold with a kept row of smaller index -/
+theorem idFilterAdv_origorder (abc : Abc) (cfg : WCfg) (deal : Nat → Nat → List Nat) (maxid : ℚ) (rf : Option Row)
+    (rows : List Row) :
+    idFilterAdv abc cfg deal .origorder maxid rf rows =
+      idFilterOrder (Mode.digital abc) maxid rows (List.range rows.length) ∧
+    ∀ r, r < rows.length → r ∉ idFilterAdv abc cfg deal .origorder maxid rf rows →
+      ∃ k ∈ idFilterAdv abc cfg deal .origorder maxid rf rows, k < r ∧
+        maxid ≤ pid (α := ℚ) (Mode.digital abc) (rows.getD r []) (rows.getD k []) := by
+  refine ⟨?_, ?_⟩
+  · unfold idFilterAdv idFilterDigital
+    show idFilterOrder _ _ _ (quicksort (cmpDecreasing ((List.range rows.length).map fun i => ((rows.length - i : Nat) : ℚ)))
+      rows.length) = _
+    rw [quicksort_origorder]
+  · intro r hr h
+    obtain ⟨k, hk, hne, hklt, hw, hl⟩ := idFilterAdv_keeps_preferred abc cfg deal .origorder maxid rf rows r hr h
+    rw [(sortwgtOf_getD abc cfg deal rf rows r hr).2.2, (sortwgtOf_getD abc cfg deal rf rows k hklt).2.2] at hw
+    have h2 : rows.length - r ≤ rows.length - k := by exact_mod_cast hw
+    exact ⟨k, hk, by omega, hl⟩
+
+/-- consensus columns, `consensus_by_all` (and the second half of `consensus_by_sample`): column `apos` is selected iff the
+    documented rule `gaps / (residues + gaps) < symfrac` holds of its two counts, where a full-length row counts everywhere
+    and a fragment (span < ceil(fragthresh·alen)) only between its first and last residue -/
+theorem consensus_by_all_selects (abc : Abc) (rule : Nat → Nat → Bool) (infos : List RowInfo) (alen apos : Nat)
+    (hK : abc.K < abc.Kp) :
+    (apos ∈ consByAll abc rule infos alen ↔ apos < alen ∧ rule (colGap abc infos apos) (colTot abc infos apos) = true) ∧
+    (consByAll abc rule infos alen).Pairwise (· < ·) :=
+  ⟨consByAll_mem abc rule infos alen apos hK, consByAll_sorted abc rule infos alen⟩
+
+/-- `consensus_by_rf`: exactly the columns whose RF character is not a gap symbol, in increasing order -/
+theorem consensus_by_rf_selects (rf : Row) (alen apos : Nat) :
+    (apos ∈ consByRf rf alen ↔ apos < alen ∧ isGapChar (rf.getD apos 45) = false) ∧ (consByRf rf alen).Pairwise (· < ·) :=
+  ⟨consByRf_mem rf alen apos, consByRf_sorted rf alen⟩
+
+/-- `consensus_by_sample` on ANY sample of row indices (any `esl_rand64` state): the fragment count is that of the sampled
+    rows; the sample is rejected iff it exceeds `maxfrag` (then no column); otherwise exactly the columns meeting the rule on
+    the counts over the SAMPLED rows -/
+theorem consensus_by_sample_selects (abc : Abc) (cfg : WCfg) (rows : List Row) (samp : List Nat) (alen : Nat)
+    (hK : abc.K < abc.Kp) :
+    let infos := samp.map fun idx => rowInfo abc cfg.minspan (rows.getD idx [])
+    (consBySample abc cfg rows samp alen).nfrag = infos.countP (·.frag) ∧
+    ((consBySample abc cfg rows samp alen).rejected = true ↔ cfg.maxfrag < (infos.countP (·.frag) : Int)) ∧
+    ((consBySample abc cfg rows samp alen).rejected = true → (consBySample abc cfg rows samp alen).cols = []) ∧
+    ((consBySample abc cfg rows samp alen).rejected = false → ∀ apos,
+      apos ∈ (consBySample abc cfg rows samp alen).cols ↔
+        apos < alen ∧ cfg.rule (colGap abc infos apos) (colTot abc infos apos) = true) :=
+  consBySample_spec abc cfg rows samp alen hK
+
+/-- the cascade of `esl_msaweight_PB_adv`: RF (unless ignored) or a sample (when allowed and nseq > sampthresh); if that
+    gave no column, `consensus_by_all` on all rows; if that gave none either, every column -/
+theorem pbAdv_consensus_cascade (abc : Abc) (cfg : WCfg) (deal : Nat → Nat → List Nat) (rf : Option Row) (rows : List Row) :
+    (pbConsensusAdv abc cfg deal rf rows).cols =
+      (let early := match consWay cfg rf rows.length with
+        | .byRf r => consByRf r (alenOf rows)
+        | .bySample => (consBySample abc cfg rows (sampleRows cfg deal rows.length) (alenOf rows)).cols
+        | .neither => []
+       let all := consByAll abc cfg.rule (rows.map (rowInfo abc cfg.minspan)) (alenOf rows)
+       if early.isEmpty then (if all.isEmpty then List.range (alenOf rows) else all) else early) := by
+  unfold pbConsensusAdv
+  cases consWay cfg rf rows.length <;> simp only [] <;> split <;> simp_all
+
+example : Abc.amino.K < Abc.amino.Kp ∧ Abc.dna.K < Abc.dna.Kp := by decide
+/-- rows `A-`, `AA`, `-A`: with minspan 2 the first and third are fragments and do not count the column of their outer gap;
+    with minspan 0 every row counts everywhere -/
+example : colGap Abc.amino ([[0, 20], [0, 0], [20, 0]].map (rowInfo Abc.amino 2)) 0 = 0 ∧
+    colTot Abc.amino ([[0, 20], [0, 0], [20, 0]].map (rowInfo Abc.amino 2)) 0 = 2 ∧
+    colGap Abc.amino ([[0, 20], [0, 0], [20, 0]].map (rowInfo Abc.amino 0)) 0 = 1 ∧
+    consByAll Abc.amino (fun g t => 2 * g < t) ([[0, 20], [0, 0], [20, 0]].map (rowInfo Abc.amino 2)) 2 = [0, 1] := by
+  decide +kernel
+
+/-- the sampling branch of `esl_dst_{C,X}Average{Id,Match}` / `XAvg(Subset)Connectivity` for EVERY state of the C09 generator
+    (`esl_randomness_Create(42)` in the code): each pair drawn names two DIFFERENT rows inside the alignment (no read outside
+    `as[]`/`ax[]`, no self-comparison), and at most `max_comparisons` pairs are drawn -/
+theorem average_sampling_in_bounds (N maxc : Nat) (r : EaselModel.Random.Rng) :
+    (∀ p ∈ samplePairs N maxc r [], p.1 < N ∧ p.2 < N ∧ p.2 ≠ p.1) ∧ (samplePairs N maxc r []).length ≤ maxc := by
+  have h := samplePairs_valid N maxc r [] (by simp)
+  exact ⟨h.1, by simpa using h.2⟩
+
+/-- an alignment (N ≥ 2) in which no row has a residue: average identity and average match fraction are 0 in both branches -/
+theorem average_all_empty (m : Mode) (rows : List Row) (L maxc : Nat) (sampled : List (Nat × Nat))
+    (hrect : ∀ a ∈ rows, a.length = L) (he : ∀ a ∈ rows, lenSpec m a = 0) (hN : 2 ≤ rows.length)
+    (hs : ∀ p ∈ sampled, p.1 < rows.length ∧ p.2 < rows.length) :
+    averageId (α := ℚ) m rows maxc sampled = 0 ∧ averageMatch (α := ℚ) m rows maxc sampled = 0 :=
+  ⟨average_all_zero _ rows maxc sampled
+      (fun a ha b hb => pairId_empty m a b ((hrect a ha).trans (hrect b hb).symm) (Or.inl (he a ha))) hN hs,
+   average_all_zero _ rows maxc sampled
+      (fun a ha b hb => pmatch_empty m a b ((hrect a ha).trans (hrect b hb).symm) (Or.inl (he a ha))) hN hs⟩
+
+/-- UPGMA and WPGMA trees are ultrametric over ℚ: below every node both children are at the same depth -/
+theorem linkage_additive_ultrametric (L : Link) (hL : L.isLinkage = false) (n : Nat) (hn : 2 ≤ n) (d : Nat → Nat → ℚ) (s : Nat)
+    (h : s < (linkTree L n d).nodes.reverse.length) :
+    ((linkTree L n d).nodes.reverse[s]).l + (linkTree L n d).hgt.getD ((linkTree L n d).nodes.reverse[s]).I 0 =
+      ((linkTree L n d).nodes.reverse[s]).r + (linkTree L n d).hgt.getD ((linkTree L n d).nodes.reverse[s]).J 0 := by
+  obtain ⟨h1, h2, _⟩ := (linkTree_heights' L n hn d).2.2 s h
+  rw [h1, h2, hL]; simp
+
+/-- the cascade of `esl_msaweight_IDFilter_adv` (conscover preference): RF (unless ignored), or a sample (when allowed and
+    nseq > sampthresh), or `consensus_by_all` on all rows; if that gave no column — a rejected sample included — every column
+    (there is NO `consensus_by_all` retry after an empty RF / rejected sample here, unlike in `PB_adv`) -/
+theorem idFilterAdv_consensus_cascade (abc : Abc) (cfg : WCfg) (deal : Nat → Nat → List Nat) (rf : Option Row) (rows : List Row) :
+    filterConsensusAdv abc cfg deal rf rows =
+      (let c := match consWay cfg rf rows.length with
+        | .byRf r => consByRf r (alenOf rows)
+        | .bySample => (consBySample abc cfg rows (sampleRows cfg deal rows.length) (alenOf rows)).cols
+        | .neither => consByAll abc cfg.rule (rows.map (rowInfo abc cfg.minspan)) (alenOf rows)
+       if c.isEmpty then List.range (alenOf rows) else c) := rfl
 
 end EaselModel.Props.C16
